@@ -248,3 +248,119 @@ Proof.
   exists w, s, c. split; [exact pr_start_ok|]. split; [|tauto].
   eapply cvrun_reach; [apply creach_init|exact R].
 Qed.
+
+(* ---- repair af6371e: details found by a rescan while NO client is registered
+        are tracked by height, so a reorg of their block clears them.  The
+        former counter-example history of finding C14-F1 (register, cancel,
+        rescan completes, reorg, re-register) now satisfies every environment
+        obligation and ends clean. ---- *)
+
+Lemma conf_details_on_chain ch start lim h0 w :
+  cstart_ok ch start lim h0 -> creach (cinit ch start lim h0) w ->
+  forall s, cset (cw_st w) = Some s ->
+    (forall h b, cs_det s = Some (h, b) -> cpos (cw_chain w) = Some (h, b)) /\
+    (cs_det s = None -> cs_rescan s = RComplete -> cpos (cw_chain w) = None) /\
+    (cs_det s = None -> forall c, In c (cs_ntfns s) -> c_disp c = false).
+Proof.
+  intros H R s Hs. destruct (call_init _ _ _ _ _ H R) as [A _].
+  split; [|split].
+  - intros h b Hd. apply (ca_det _ A s h b Hs Hd).
+  - intros Hd Hr. apply (ca_nodet _ A s Hs Hd Hr).
+  - intros Hd c Hc. apply (ca_cl _ A s c Hs Hc). exact Hd.
+Qed.
+
+Definition zc_cchain : list (N * (N * bool)) := [(3, (3, false)); (2, (2, true)); (1, (1, false))].
+Definition zc_cops1 : list cop := [CReg 1 1 1; CCancel 1; CUpd (Some (2, 2))].
+Definition zc_cops2 : list cop :=
+  [CDisconnect 3; CDisconnect 2; CConnect 2 4 false; CNotify; CConnect 3 5 false; CNotify;
+   CReg 2 1 1].
+
+Lemma zc_cstart_ok : cstart_ok zc_cchain 3 144 None.
+Proof.
+  unfold cstart_ok, zc_cchain. simpl. repeat split; try lia; try discriminate; auto.
+  all: try (intros; discriminate). all: try (intros; lia).
+Qed.
+
+Ltac wstep :=
+  split;
+  [ simpl; repeat split; try reflexivity; try discriminate; try lia;
+    try (intros; discriminate); try (intros; reflexivity); try (intros; congruence)
+  | eexists; split; [vm_compute; reflexivity|] ].
+
+Lemma conf_zero_client_details_cleared :
+  exists w1 w s1 s,
+    cstart_ok zc_cchain 3 144 None /\
+    (* the rescan result arrives with zero clients: details stored AND tracked *)
+    cvrun (cinit zc_cchain 3 144 None) zc_cops1 w1 /\
+    cset (cw_st w1) = Some s1 /\ cs_ntfns s1 = [] /\ cs_det s1 = Some (2, 2) /\
+    initial (cw_st w1) = [2] /\
+    (* its block is reorged out, a new client registers: nothing stale *)
+    cvrun w1 zc_cops2 w /\ creach (cinit zc_cchain 3 144 None) w /\
+    cset (cw_st w) = Some s /\ cs_det s = None /\ cpos (cw_chain w) = None /\
+    clstate 2 (cw_log w) = Some None /\ hint (cw_st w) = Some 3.
+Proof.
+  assert (R1 : exists w1, cvrun (cinit zc_cchain 3 144 None) zc_cops1 w1 /\
+            exists s1, cset (cw_st w1) = Some s1 /\ cs_ntfns s1 = [] /\ cs_det s1 = Some (2, 2) /\
+            initial (cw_st w1) = [2] /\
+            exists w, cvrun w1 zc_cops2 w /\
+            exists s, cset (cw_st w) = Some s /\ cs_det s = None /\ cpos (cw_chain w) = None /\
+            clstate 2 (cw_log w) = Some None /\ hint (cw_st w) = Some 3).
+  { eexists. split.
+    { unfold zc_cops1.
+      split; [simpl; intros h b Hp; inversion Hp; subst; lia
+             |eexists; split; [vm_compute; reflexivity|]].
+      wstep. wstep. simpl. reflexivity. }
+    eexists. split; [vm_compute; reflexivity|]. split; [reflexivity|]. split; [reflexivity|].
+    split; [reflexivity|].
+    eexists. split.
+    { unfold zc_cops2. wstep. wstep. wstep. wstep. wstep. wstep. wstep. simpl. reflexivity. }
+    eexists. split; [vm_compute; reflexivity|]. repeat split; vm_compute; reflexivity. }
+  destruct R1 as [w1 [R1 [s1 [A1 [A2 [A3 [A4 [w [R2 [s [B1 [B2 [B3 [B4 B5]]]]]]]]]]]]]].
+  exists w1, w, s1, s. split; [exact zc_cstart_ok|].
+  repeat (split; [assumption|]). split; [|repeat split; assumption].
+  eapply cvrun_reach; [|exact R2]. eapply cvrun_reach; [apply creach_init|exact R1].
+Qed.
+
+Definition zc_schain : list (N * option N) := [(3, None); (2, Some 0); (1, None)].
+Definition zc_sops1 : list sop := [SReg 1 1; SCancel 1; SUpd (Some (2, 0))].
+Definition zc_sops2 : list sop :=
+  [SDisconnect 3; SDisconnect 2; SConnect 2 None; SNotify; SConnect 3 None; SNotify; SReg 2 1].
+
+Lemma zc_sstart_ok : sstart_ok zc_schain 3 144 None.
+Proof.
+  unfold sstart_ok, zc_schain. simpl. repeat split; try lia; try discriminate; auto.
+  all: try (intros; discriminate). all: try (intros; lia).
+  all: try (intros H; exfalso; apply H; reflexivity).
+Qed.
+
+Lemma spend_zero_client_details_cleared :
+  exists w1 w s1 s,
+    sstart_ok zc_schain 3 144 None /\
+    svrun (sinit zc_schain 3 144 None) zc_sops1 w1 /\
+    sset (sw_st w1) = Some s1 /\ ss_ntfns s1 = [] /\ ss_det s1 = Some (2, 0) /\
+    sheights (sw_st w1) = [2] /\
+    svrun w1 zc_sops2 w /\ sreach (sinit zc_schain 3 144 None) w /\
+    sset (sw_st w) = Some s /\ ss_det s = None /\ spos (sw_chain w) = None /\
+    slstate 2 (sw_log w) = Some None /\ shint (sw_st w) = Some 3.
+Proof.
+  assert (R1 : exists w1, svrun (sinit zc_schain 3 144 None) zc_sops1 w1 /\
+            exists s1, sset (sw_st w1) = Some s1 /\ ss_ntfns s1 = [] /\ ss_det s1 = Some (2, 0) /\
+            sheights (sw_st w1) = [2] /\
+            exists w, svrun w1 zc_sops2 w /\
+            exists s, sset (sw_st w) = Some s /\ ss_det s = None /\ spos (sw_chain w) = None /\
+            slstate 2 (sw_log w) = Some None /\ shint (sw_st w) = Some 3).
+  { eexists. split.
+    { unfold zc_sops1.
+      split; [simpl; intros h t Hp; inversion Hp; subst; lia
+             |eexists; split; [vm_compute; reflexivity|]].
+      wstep. wstep. simpl. reflexivity. }
+    eexists. split; [vm_compute; reflexivity|]. split; [reflexivity|]. split; [reflexivity|].
+    split; [reflexivity|].
+    eexists. split.
+    { unfold zc_sops2. wstep. wstep. wstep. wstep. wstep. wstep. wstep. simpl. reflexivity. }
+    eexists. split; [vm_compute; reflexivity|]. repeat split; vm_compute; reflexivity. }
+  destruct R1 as [w1 [R1 [s1 [A1 [A2 [A3 [A4 [w [R2 [s [B1 [B2 [B3 [B4 B5]]]]]]]]]]]]]].
+  exists w1, w, s1, s. split; [exact zc_sstart_ok|].
+  repeat (split; [assumption|]). split; [|repeat split; assumption].
+  eapply svrun_reach; [|exact R2]. eapply svrun_reach; [apply sreach_init|exact R1].
+Qed.
